@@ -255,7 +255,11 @@ def reference(helper, args, kind, vals):
     if helper == "any":
         return any(x is None or x != 0 for x in xs)
     if helper == "count_unique":
-        return None if has_na else len(set(xs))
+        # the elements are counted as a Python set counts them: NaN / NaT are equal to nothing, so every missing element of a
+        # float / date / timedelta column is a distinct element of its own (the suite pins [NaN, NaN] -> 2); the missing
+        # string "" and None are ordinary equal values and count once
+        nas = sum(1 for x in xs if x is None)
+        return len({x for x in xs if x is not None}) + (nas if kind in ("float", "date", "datetime", "timedelta") else min(nas, 1))
     if helper in ("first", "last", "nth"):
         i = {"first": 0, "last": -1}.get(helper, args.get("index"))
         try:
@@ -352,7 +356,7 @@ def judge(ctx, case, obs, mouts):
         nontrivial = len(vals) >= 2 and (has_na or len(set(map(repr, vals))) < len(vals))
     else:
         nontrivial = len(set(case["g"])) >= 2
-    unspecified = helper in ("mode", "count_unique") and has_na and not (drop_default(helper) if args.get("drop_na") is None else args.get("drop_na"))
+    unspecified = helper in ("mode",) and has_na and not (drop_default(helper) if args.get("drop_na") is None else args.get("drop_na"))
     if "err" in obs:
         ctx.violation("oracle", f"{helper}:{case['op']}:raises", f"di.{helper} ({case['op']} form, {kind}) raised: {obs['err']}", case, obs)
     else:
